@@ -9,6 +9,8 @@
 (*   "fail"    return an error                                             *)
 (*   "failctx" return an error that wraps context.Canceled while the run   *)
 (*             context is alive (the evaluator's own child context died)   *)
+(*   "fsolved" report the generation solved (champion set) AND return an    *)
+(*             error from the same call (e.g. writing the winner failed)   *)
 (*   "cancel"  cancel the context while evaluating, report not solved      *)
 (*   "csolved" cancel the context while evaluating, report solved          *)
 (* Independently the scripted OBSERVER may cancel the context while it is   *)
@@ -42,8 +44,8 @@ VARIABLES script, observer,  \* inputs
           err                \* "" | "fail" | "cancelled"
 vars == <<script, observer, ocancel, lazy, pc, run, gen, pop, cancelled, evals, calls, cur, trials, finalPops, err>>
 
-Outcomes == {"ok", "solved", "fail", "failctx", "cancel", "csolved"}
-Fails == {"fail", "failctx"}
+Outcomes == {"ok", "solved", "fail", "failctx", "fsolved", "cancel", "csolved"}
+Fails == {"fail", "failctx", "fsolved"}     \* an error is an error, whatever else the call reported
 Notify(c) == IF observer THEN Append(calls, c) ELSE calls
 CancelledBy(c) == cancelled \/ (observer /\ c \in ocancel)
 
